@@ -102,7 +102,7 @@ def build_repo_bins():
     """builds adf-bdd and adf-bdd-server from /repo's current working tree into /verif/build"""
     with Lock("cargo"):
         tdir = os.path.join(TARGET, "repo")
-        rc, out, err = run(["cargo", "build", "--release", "--offline", "-p", "adf-bdd-bin", "-p", "adf-bdd-server"],
+        rc, out, err = run(["cargo", "build", "--offline", "-p", "adf-bdd-bin", "-p", "adf-bdd-server"],
                            cwd=REPO, env={"CARGO_TARGET_DIR": tdir}, timeout=7200)
         if rc != 0:
             return False, err[-4000:]
@@ -110,7 +110,7 @@ def build_repo_bins():
 
 
 def repo_bin(name):
-    return os.path.join(TARGET, "repo", "release", name)
+    return os.path.join(TARGET, "repo", "debug", name)
 
 
 def lake_build(targets):
@@ -338,7 +338,7 @@ class Mismatch:
         return f"[{self.kind}] {self.req[:160]} | impl: {str(self.impl)[:160]} | model: {str(self.model)[:160]}"
 
 
-REGENERATED = ("cubecheck", "dump", "wfcheck", "classes", "memocheck", "alltt", "isocheck", "tabcheck", "nogoodcheck", "adopt", "presented", "ordercheck", "clirun", "memocheckn")
+REGENERATED = ("cubecheck", "dump", "wfcheck", "classes", "memocheck", "alltt", "isocheck", "tabcheck", "pmemocheck", "nogoodcheck", "adopt", "presented", "ordercheck", "clirun", "memocheckn")
 
 
 def case_requests(case):
